@@ -653,7 +653,7 @@ impl RJudge<'_> {
                 (true, true) => "honest-step-after-rejected-tampering",
                 (_, false) => "tampered-step",
             };
-            return format!("{detail}|via-history|{how}{do_tag}");
+            return format!("{detail}|via-history:{}|{how}{do_tag}", crate::fault_kinds(min_steps.iter().flat_map(|s| s.faults.iter().map(|f| f.fault.kind.as_str()))));
         }
         if last.faults.is_empty() {
             return format!("{detail}|honest|{}{do_tag}", ground_kind(b, &last.qname, last.qtype));
